@@ -15,6 +15,7 @@ from typing import Iterator, Mapping, Any, List, Optional, Callable
 
 from spil import Sid
 from spil.sid.read.util import first
+from spil.conf import extension_alias  # type: ignore
 from spil.sid.read.tools import unfold_search
 
 
@@ -90,8 +91,9 @@ class Getter:
             One special field named "sid" contains the Sid
         """
         # shortcut if Sid is not a search
+        # (an unapplied query or an extension alias as last value still need to be unfolded)
         sid = Sid(search_sid)
-        if sid and not sid.is_search():
+        if sid and not sid.is_search() and not sid.string.count("?") and sid.get(sid.keytype) not in extension_alias:
             generator = self.do_get([sid], attributes=attributes, sid_encode=sid_encode)
         else:
             search_sids = unfold_search(search_sid)
